@@ -79,9 +79,13 @@ class WorkDir:
 # ---------------------------------------------------------------- findings
 
 def load_known():
+    """known_findings.jsonl plus any known_findings_<ID>.jsonl next to it (large per-property lists)."""
+    import glob
     out = []
-    if os.path.exists(KNOWN):
-        for line in open(KNOWN, encoding='utf-8'):
+    for path in [KNOWN] + sorted(glob.glob(os.path.join(VERIF, 'known_findings_*.jsonl'))):
+        if not os.path.exists(path):
+            continue
+        for line in open(path, encoding='utf-8'):
             line = line.strip()
             if not line or line.startswith('#'):
                 continue
